@@ -374,7 +374,7 @@ def asciiNodeRecords (supp : List Nat) : Nat → List SNode → List Nat
 
 def asciiTermRecords : Nat → List (List Nat) → List Nat
   | _, [] => []
-  | nodeId, d :: rest => decBytes nodeId ++ [sp] ++ d ++ strBytes " 0 0\n" ++ asciiTermRecords (nodeId + 1) rest
+  | nodeId, d :: rest => decBytes nodeId ++ [sp] ++ d ++ [32, 48, 32, 48, 10] ++ asciiTermRecords (nodeId + 1) rest
 
 /-- the node section (between `.nodes\n` and `.end\n`) -/
 def nodeSection (ascii : Bool) (nvars : Nat) (d : Diagram) : List Nat :=
